@@ -518,7 +518,8 @@ func buildReply(sc *Script, st Step, k ActKind, req ref.Envelope) []byte {
 		env.Body = ref.Struct(ref.F(1, ref.Str("scripted failure")), ref.F(2, ref.I32(6)))
 		return ref.EncodeEnvelope(env)
 	case ActUnknownEnvType:
-		env.Type = 7
+		// not a reply: an undefined type, or the request's own type echoed back (Call, OneWay)
+		env.Type = []int8{7, 1, 4, 0, 127}[sc.Steps[st].N%5]
 	}
 	var success ref.Val
 	switch st {
